@@ -56,6 +56,12 @@ NEEDS = {
  "agent5-K6": ("C15", "add/sub fast paths treat a combination whose FIRST term is the constant 0 as zero and drop its other terms", "operand of + / - that starts with a zero constant term and has further non-zero terms"),
  "agent5-K7": ("C06", "verifier squeezes r from the live transcript instead of a clone", "any use of the verifier's transcript after verification (follow-up challenge, chained proof)"),
  "agent5-K8": ("C01", "prover computes Q = w * G::generator() instead of w * pc_gens.B", "custom value base on both sides and >= 2 gates"),
+ "agent6-M1": ("C06", "challenge_scalar in the randomized phase memoises by label on both roles: a repeated label returns the first scalar without squeezing", "the same challenge label drawn at least twice in the randomized phase of one proof"),
+ "agent6-M2": ("C17", "share(j) views run on into the next party's generators and the capacity check asks whether the view can supply n generators", "party_capacity > 1, per-party capacity below the padded size, padded size <= capacity * parties"),
+ "agent6-M3": ("C09", "masking vectors of >= 512 entries are expanded from a ChaCha stream seeded with ONE u64 of the transcript RNG", ">= 512 gates inside a single phase"),
+ "agent6-M4": ("C03", "the five T_i identity checks merged into one that uses all() instead of any()", "adversarial prover whose T_i is the identity while relations (b) and (c) hold (t_i = 0 and tau_i = 0)"),
+ "agent6-M5": ("C05", "verifier's flattening reuses the previous term's product when the coefficient has the same low 64 bits", "adjacent terms whose coefficients differ by a multiple of 2^64, deviation on the second"),
+ "agent6-M6": ("C17", "increase_capacity with a smaller request lowers the recorded gens_capacity (tables keep their length)", "non-monotone capacity requests; then a circuit between the two capacities, or a later increase"),
 }
 for d in sorted(glob.glob('/verif/seeded/*/')):
     name=os.path.basename(d.rstrip('/'))
